@@ -1,4 +1,5 @@
-\* C04 thorough: <= 3 blocks, <= 3 body lines, <= 2 leading / separating blank lines
+\* C04 thorough: <= 3 blocks, <= 3 body lines, <= 2 leading and <= 1 separating blank lines
+\* (the thorough tier also runs MC_Changelog_c04_quick.cfg: <= 2 blocks with <= 2 separating blank lines)
 CONSTANTS
   Mode = "text"
   Classes = {}
@@ -7,7 +8,7 @@ CONSTANTS
   MaxBlocks = 3
   MaxBody = 3
   MaxLead = 2
-  MaxSep = 2
+  MaxSep = 1
   Budget = 0
   MaxEdits = 0
   Bug = "none"
